@@ -111,6 +111,14 @@ def constructor_summary(ctx_repo, fi, L, run):
             if head not in LETTERS or dlo != dhi:
                 out.append(("bad", "result %r is not the argument shifted by a constant" % (v,)))
                 continue
+            # not routed through the respelling helper: the accidentals of the argument come out as they went in
+            units = p.interp.norm_str(v if isinstance(v, AbsStr) else AbsStr([v])).units()
+            if any(isinstance(u_, Run) and len(u_.classes) > 1 for u_ in units) or p.interp.lin_interval(net_out)[1] > 6 \
+                    or p.interp.lin_interval(net_out)[0] < -6:
+                out.append(("bad", "the result %s keeps the argument's accidentals unchanged (plus or minus one): for an argument that mixes sharps "
+                                   "and flats or carries six of them it is mixed / longer than six, e.g. 'C#b' -> %s" % (
+                                       short(repr(v), 60), "'C#bb'" if int(dlo) < 0 else ("'C#b#'" if int(dlo) > 0 else "'C#b'"))))
+                continue
             out.append(((LETTERS.index(head) - LETTERS.index(L)) % 7, int(dlo)))
     return out
 
@@ -140,7 +148,8 @@ def rule_constructors(ctx, mod):
                 got = constructor_summary(ctx.repo, fi, L, run)
             except CannotDecide as e:
                 raise AnalysisError("constructor %s on letter %s: %s" % (name, L, e))
-            w = (want[0], want[1] % 12 if want[1] >= 0 else want[1])
+            w = (want[0], want[1] % 12)
+            got = [(g[0], g[1] % 12) if isinstance(g[1], int) else g for g in got]
             ok = bool(got) and all(g == w for g in got)
             ctx.check(ok, R, "%s[%s]" % (name, L), fi.where(), "%s(%s<any accidentals>)" % (name, L),
                       "constructor %s summarises to (letters up, semitones) = %s, theory says %s"
